@@ -77,7 +77,7 @@ theorem parseValPrefix_reprVal (isP : Char → Bool) (v : PyVal) (rest : List Ch
     rw [e]
     rw [hq] at h ⊢
     simp only [List.cons_append] at h ⊢
-    rcases hq' with rfl | rfl <;> simp [parseValPrefix, h, ht]
+    rcases hq' with rfl | rfl <;> simp [parseValPrefix, h, ht] <;> simp [reprTail]
   | .list (x :: r) =>
     obtain ⟨q, body, hq, hq'⟩ := pyRepr_head isP x
     have h := Py.repr_roundtrip_append isP x (reprTail isP r ++ ']' :: rest)
